@@ -102,19 +102,43 @@ def string_block_size_enforced(ctx, c, pid):
             if x.get("k") == "path" and x["res"].get("local") in lets and depth < 3 and mentions(lets[x["res"]["local"]], nm, depth + 1):
                 return True
         return False
-    exact = False
-    for c_ in hirq.walk(body):
-        if c_.get("k") == "mcall" and c_["m"] == "read_exact" and c_.get("args"):
-            buf = hirq.strip(c_["args"][0])
-            if buf.get("k") == "path" and buf["res"].get("local") in lets:
-                init = lets[buf["res"]["local"]]
-                if any((x.get("fn") or "").endswith("from_elem") and size and mentions(x, size) for x in hirq.calls(init)):
-                    exact = True
-    compared = False
-    for n in hirq.find(body, "if"):
-        cnd = n["c"]
-        if size and mentions(cnd, size) and ".len()" in hirq.render(cnd) and any(x.get("k") == "ret" or x.get("k") == "try" or "Err" in hirq.render(x) for x in hirq.walk(n["then"])):
-            compared = True
+    local_fns = {g.path: g for g in c.fn_list if g.hir and g.kind != "Closure"}
+
+    def enforced(body_, size_, depth=0):
+        lets_ = {l["pat"]["name"]: l["init"] for l in hirq.find(body_, "let") if l["pat"].get("k") == "bind" and l.get("init") is not None}
+
+        def ment(n, nm, d=0):
+            for x in hirq.walk(n):
+                if x.get("k") == "path" and x["res"].get("local") == nm:
+                    return True
+                if x.get("k") == "path" and x["res"].get("local") in lets_ and d < 3 and ment(lets_[x["res"]["local"]], nm, d + 1):
+                    return True
+            return False
+        ex = cp = False
+        for c_ in hirq.walk(body_):
+            if c_.get("k") == "mcall" and c_["m"] == "read_exact" and c_.get("args"):
+                buf = hirq.strip(c_["args"][0])
+                if buf.get("k") == "path" and buf["res"].get("local") in lets_:
+                    init = lets_[buf["res"]["local"]]
+                    if any((x.get("fn") or "").endswith("from_elem") and ment(x, size_) for x in hirq.calls(init)):
+                        ex = True
+        for n in hirq.find(body_, "if"):
+            cnd = n["c"]
+            if ment(cnd, size_) and ".len()" in hirq.render(cnd) and any(x.get("k") in ("ret", "try") or "Err" in hirq.render(x) for x in hirq.walk(n["then"])):
+                cp = True
+        if not (ex or cp) and depth < 2:
+            for c_ in hirq.calls(body_):
+                callee = local_fns.get(c_.get("fn"))
+                if callee is None or callee.hir["body"] is body_:
+                    continue
+                pn = [b for p_ in callee.hir["params"] for b in hirq.pat_binds(p_)]
+                args = ([c_["recv"]] if c_.get("k") == "mcall" else []) + list(c_.get("args") or [])
+                for nm_, a_ in zip(pn, args):
+                    if ment(a_, size_):
+                        e2, c2 = enforced(callee.hir["body"], nm_, depth + 1)
+                        ex, cp = ex or e2, cp or c2
+        return ex, cp
+    exact, compared = enforced(body, size) if size else (False, False)
     if exact or compared:
         ctx.ok(R, {"fn": norm(f.path), "exact_read": exact, "length_compared": compared})
     else:
@@ -237,7 +261,25 @@ def run(ctx):
         val = fns.get("wow_cdbc::schema::Schema::validate")
         vtxt = hirq.render(val.hir["body"]) if val else ""
         closures_v = " ".join(hirq.render(x) for x in hirq.walk(val.hir["body"])) if val else ""
-        wtxt = " ".join(hirq.render(x) for x in hirq.walk(fc)) if fc is not None else ""
+        # everything the header's field_count value is computed from (through intermediate locals, accumulators and loops)
+        def dep_text(body, start):
+            seen, work, out = set(), [start], []
+            while work:
+                nm = work.pop()
+                if nm in seen:
+                    continue
+                seen.add(nm)
+                srcs = [l["init"] for l in hirq.find(body, "let") if l.get("init") is not None and nm in hirq.pat_binds(l["pat"])]
+                for a_ in hirq.walk(body):
+                    if a_.get("k") in ("assign", "assignop") and hirq.strip(a_["l"]).get("k") == "path" and hirq.strip(a_["l"])["res"].get("local") == nm:
+                        srcs.append(a_["r"])
+                for sx in srcs:
+                    out.append(" ".join(hirq.render(x) for x in hirq.walk(sx)))
+                    for x in hirq.walk(sx):
+                        if x.get("k") == "path" and "local" in x["res"]:
+                            work.append(x["res"]["local"])
+            return " ".join(out)
+        wtxt = dep_text(wr.hir["body"], "field_count") if fc is not None else ""
         v_arrays = "array_size" in closures_v
         w_arrays = "array_size" in wtxt
         if fc is None:
